@@ -36,10 +36,10 @@ type Plan struct {
 	Progs           []Prog
 	PackSize        int
 	ConfirmCap      int // fresh confirmations per (kind of difference, mode, feature set)
-	// ComboModes, when set, are the only type modes in which configurations
-	// that deviate from the baseline in more than one setting are run (quick
-	// tier); single-setting configurations always run in every mode.
+	// ComboModes, when set (quick tier), are the only type modes in which a
+	// configuration is run unless its label is listed in AllModes.
 	ComboModes []string
+	AllModes   map[string]bool
 	// DiagModes, when it has an entry for a diagnostics mode, lists the only
 	// type modes that diagnostic is run in (quick tier).
 	DiagModes map[string][]string
@@ -56,7 +56,7 @@ func (p *Plan) modeApplies(cfg Config, mode string) bool {
 		return false
 	}
 
-	if len(p.ComboModes) == 0 || cfg.Deviations() <= 1 {
+	if len(p.ComboModes) == 0 || p.AllModes[cfg.Label()] {
 		return true
 	}
 
@@ -136,6 +136,7 @@ type file struct {
 	path   string
 	ids    []int
 	packed bool
+	ord    int // creation order of packed files
 }
 
 const filesPerUnit = 12
@@ -143,8 +144,26 @@ const filesPerUnit = 12
 // runFiles executes the files under (cfg, mode) in batch processes and hands
 // the raw result of each to sink.
 func (e *engine) runFiles(wg *sync.WaitGroup, cfg Config, mode string, files []file, sink func(f file, raw *Raw)) {
-	for lo := 0; lo < len(files); lo += filesPerUnit {
-		hi := lo + filesPerUnit
+	// Packed and solo files are grouped into batch processes separately, so
+	// that the grouping of one kind never depends on how many of the other
+	// there are.
+	var packed, solo []file
+
+	for _, f := range files {
+		if f.packed {
+			packed = append(packed, f)
+		} else {
+			solo = append(solo, f)
+		}
+	}
+
+	e.runChunks(wg, cfg, mode, packed, filesPerUnit, sink)
+	e.runChunks(wg, cfg, mode, solo, 3*filesPerUnit, sink)
+}
+
+func (e *engine) runChunks(wg *sync.WaitGroup, cfg Config, mode string, files []file, per int, sink func(f file, raw *Raw)) {
+	for lo := 0; lo < len(files); lo += per {
+		hi := lo + per
 		if hi > len(files) {
 			hi = len(files)
 		}
@@ -328,9 +347,11 @@ func Run(r *report.R, plan *Plan) {
 // layout decides, for one mode, which programs share packed files and which
 // run solo, by running the group's baseline.
 type layout struct {
-	files  []file
-	packed map[int][]string
-	solo   map[int]Obs
+	files    []file
+	packed   map[int][]string
+	solo     map[int]Obs
+	soloDone map[int]bool
+	clean    bool // the first packing came through whole: these results are the reference
 }
 
 func (e *engine) pack(dirKey string, gen int, ids []int, byID map[int]*Prog, style int) []file {
@@ -355,14 +376,14 @@ func (e *engine) pack(dirKey string, gen int, ids []int, byID map[int]*Prog, sty
 			report.Fatal("%v", err)
 		}
 
-		files = append(files, file{path: path, ids: append([]int{}, ids[lo:hi]...), packed: true})
+		files = append(files, file{path: path, ids: append([]int{}, ids[lo:hi]...), packed: true, ord: gen*1000000 + lo})
 	}
 
 	return files
 }
 
 func (e *engine) buildLayout(gi int, base Config, mode string, byID map[int]*Prog) *layout {
-	lay := &layout{packed: map[int][]string{}, solo: map[int]Obs{}}
+	lay := &layout{packed: map[int][]string{}, solo: map[int]Obs{}, soloDone: map[int]bool{}, clean: true}
 
 	var packIDs, soloIDs []int
 
@@ -424,6 +445,8 @@ func (e *engine) buildLayout(gi int, base Config, mode string, byID map[int]*Pro
 			break
 		}
 
+		lay.clean = false
+
 		if gen == 1 {
 			soloIDs = append(soloIDs, failed...)
 			packIDs = nil
@@ -469,10 +492,11 @@ func (e *engine) buildLayout(gi int, base Config, mode string, byID map[int]*Pro
 		defer mu.Unlock()
 
 		lay.solo[f.ids[0]] = Observe(raw, e.plan.OutOnly)
+		lay.soloDone[f.ids[0]] = raw.Done
 	})
 	wg.Wait()
 
-	sort.Slice(lay.files, func(i, j int) bool { return lay.files[i].path < lay.files[j].path })
+	sort.Slice(lay.files, func(i, j int) bool { return lay.files[i].ord < lay.files[j].ord })
 	lay.files = append(lay.files, sf...)
 
 	return lay
@@ -591,8 +615,26 @@ func (e *engine) runGroup(gi int, byID map[int]*Prog) []candidate {
 	sets := map[string][2]*fileset{}
 
 	for _, mode := range e.plan.Modes {
-		fs := newFileset(layouts[mode].files)
+		lay := layouts[mode]
+		fs := newFileset(lay.files)
 		sets[mode] = [2]*fileset{fs, nil}
+
+		if lay.clean {
+			// The layout run was already the baseline over exactly these
+			// files in exactly this grouping.
+			fs.packed = lay.packed
+
+			for id, o := range lay.solo {
+				if lay.soloDone[id] {
+					fs.solo[id] = o
+					fs.soloDone[id] = true
+				} else {
+					fs.noRef++
+				}
+			}
+
+			continue
+		}
 
 		e.reference(&wg, &mu, g.Base, mode, fs)
 	}
